@@ -132,11 +132,14 @@ prop("C19", "errors keep their cause and their retry handle", "exploration",
      "cause (context.WithCancelCause with io.EOF / an application error: Err() is still context.Canceled, the cause must not replace it) or by "
      "its deadline (a Context of the harness' own, expired exactly at the interruption point). ConnectCancel: ReconnectClient.Connect after "
      "0..4 failed attempts (refused CONNACK codes 1..5, dial errors incl. ones carrying a context error) whose context then ends: the returned "
-     "error must satisfy errors.Is(err, ctx.Err()).",
+     "error must satisfy errors.Is(err, ctx.Err()). RetryPing: RetryClient.Ping against a peer that never answers, ResponseTimeout 0 / never expiring / 5 ms, "
+     "ended by the caller's cancel, cancel with cause, own deadline or by the response timeout: errors.Is finds exactly the caller's "
+     "context error (never the other context sentinel), an expired response timeout is a RequestTimeoutError.",
      [dict(tests="^TestVerifC19_Chains$", checks_quick=30000, checks_thorough=1200000, shards=6),
       dict(tests="^TestVerifC19_Retry$", checks_quick=3000, checks_thorough=90000, shards=8),
       dict(tests="^TestVerifC19_ResponseTimeout$", checks_quick=500, checks_thorough=9000, shards=6),
-      dict(tests="^TestVerifC19_ConnectCancel$", checks_quick=400, checks_thorough=6000, shards=4, shards_quick=1)],
+      dict(tests="^TestVerifC19_ConnectCancel$", checks_quick=400, checks_thorough=6000, shards=4, shards_quick=1),
+      dict(tests="^TestVerifC19_RetryPing$", checks_quick=150, checks_thorough=1500, shards=2, shards_quick=1)],
      assumptions=["error types outside the stated domain (pointer-to-non-struct errors, uncomparable value errors) are not generated",
                   "nodes hidden behind an opaque layer or reachable only via the reflection fallback are not asserted either way"])
 
